@@ -131,7 +131,19 @@ pub fn labeled_poly<A: Adapter>(
 ) -> LabeledPolynomial<A::F, A::P> {
     let mut rng = rng_for("poly", hash_str(&beh.id) ^ (spec.l as u64) << 8 ^ salt << 32);
     let p = A::make_poly(spec, beh, &mut rng);
-    LabeledPolynomial::new(plabel(spec.l), p, opt(spec.bound), opt(spec.hid))
+    // Two ways to the same labelled polynomial: built in one step, or labelled first (with the polynomial of
+    // another behaviour-independent seed and the same class) and filled in through the public mutator.  Whatever
+    // the library derives from the polynomial must be derived from the one it finally holds.
+    if (hash_str(&beh.id) ^ spec.l as u64 ^ salt) % 2 == 0 {
+        LabeledPolynomial::new(plabel(spec.l), p, opt(spec.bound), opt(spec.hid))
+    } else {
+        let mut lrng = rng_for("poly-placeholder", spec.l as u64);
+        let small = PolySpec { l: spec.l, cls: "const".into(), deg: 0, lz: 0, bound: -1, hid: -1 };
+        let q = A::make_poly(&small, beh, &mut lrng);
+        let mut lp = LabeledPolynomial::new(plabel(spec.l), q, opt(spec.bound), opt(spec.hid));
+        *lp.polynomial_mut() = p;
+        lp
+    }
 }
 
 fn build_qs<A: Adapter>(beh: &Beh, qs: &[(i64, i64, i64)], lc: bool) -> QuerySet<A::Pt> {
